@@ -44,6 +44,11 @@ def sframe_items(item):
             out.append((wire.sframe(op if i == 0 else 0, pb, fin=1 if last else 0),
                         {"kind": "msg", "op": op, "data": list(whole), "nfrag": len(parts)} if last else None))
         return out
+    if k == "part":
+        # one fragment of a message, delivered on its own: ("part", opcode or 0, payload, fin).  The message event is
+        # reported by the harness when the final part is delivered (payloads of the open message are accumulated by the caller)
+        pb = item[2] if isinstance(item[2], bytes) else item[2].encode()
+        return [(wire.sframe(item[1], pb, fin=item[3]), {"kind": "part", "op": item[1], "data": list(pb), "fin": item[3]})]
     if k == "ping":
         return [(wire.sframe(9, item[1]), {"kind": "ping", "data": list(item[1])})]
     if k == "pong":
@@ -72,6 +77,7 @@ class AppNet:
         self.fake_tls = tls
         self.last_exc = None
         self.pings_seen = {}
+        self.parts = {}
 
     def ev(self, name, **kw):
         self.sched.ev(name, **kw)
@@ -111,7 +117,15 @@ class AppNet:
             self.sched.ev("srv", cid=sock.cid, kind="reset")
         else:
             sock.feed(data)
-            if abstract is not None:
+            if abstract is not None and abstract.get("kind") == "part":
+                st = self.parts.setdefault(sock.cid, {"op": 0, "data": []})
+                if abstract["op"] != 0:
+                    st["op"] = abstract["op"]
+                    st["data"] = []
+                st["data"] += abstract["data"]
+                if abstract["fin"]:
+                    self.sched.ev("srv", cid=sock.cid, kind="msg", op=st["op"], data=list(st["data"]), nfrag=2)
+            elif abstract is not None:
                 self.sched.ev("srv", cid=sock.cid, **abstract)
 
     def deliver_many(self, sock, chunks):
@@ -296,10 +310,25 @@ def run_app(sc, schedule=None, seed=None, line_preempt=None):
         if a == "kbint":
             sched.ev("cb_raise", name=name, kb=True)
             raise KeyboardInterrupt()
+        if a == "send":
+            app_send("from-%s-%d" % (name, n))
         if a == "close":
             sched.ev("app_close_call", where=name)
             holder["app"].close()
             sched.ev("app_close_ret", where=name)
+
+    def app_send(text):
+        """WebSocketApp.send from application code (beyond the listed properties: clauses X13.*)"""
+        mark = len(sched.log)
+        ok, cls = True, ""
+        try:
+            holder["app"].send(text)
+        except BaseException as e:      # noqa
+            if isinstance(e, schedworld.Killed):
+                raise
+            ok, cls = False, type(e).__name__
+        got = any(e["ev"] == "client_frame" and bytes(e["data"]) == text.encode()[:50] for e in sched.log[mark:])
+        sched.ev("app_send", ok=ok, cls=cls, delivered=got)
 
     def norm(x):
         if isinstance(x, str):
@@ -372,6 +401,8 @@ def run_app(sc, schedule=None, seed=None, line_preempt=None):
                         ext.dispatch(stop=lambda: bool(getattr(app, "has_done_teardown", False)))
                         v = app.has_errored
                     sched.ev("run_ret", value=bool(v), run=r)
+                    if sc.get("send_after_run"):
+                        app_send("after-run-%d" % r)
                 except BaseException as e:      # noqa
                     if isinstance(e, schedworld.Killed):
                         raise
